@@ -16,6 +16,20 @@ GLOBAL_TRUSTED = [
 ]
 PROPERTY_META = {}
 NOT_APPLICABLE = {
+    "C01": "not claimed: no contract within CBMC's reach decides it here. The service decoder state (vbi_decoder 220 kB, struct "
+           "caption 168 kB, vbi_page 9 kB of bit-field cells) stalls CBMC's symbolic execution even for put_char-sized "
+           "functions (measured, DESIGN.md 8); leak freedom and bounded growth are whole-history heap properties. The input "
+           "primitives it rests on are covered under C03 (Hamming/parity), C09 (XDS), C12/C13 (VPS, 8/30, WSS), C15 (IDL/PFC).",
+    "C02": "not claimed: page assembly (vbi_decode_teletext on vbi_decoder, 220 kB) and Level 1 formatting "
+           "(vbi_format_vt_page on vbi_page) are outside CBMC's reach in this sandbox (object sizes, DESIGN.md 8); a "
+           "character-for-character comparison with an independent EN 300 706 reading over all page contents is not "
+           "expressible as a per-function contract that the tool can discharge here.",
+    "C04": "not applicable: bit-exact recovery of a simulated analogue waveform (io-sim.c: sin/pow in double over ~2000 samples "
+           "per line, adaptive threshold) is a numerical-analysis statement, not a CBMC obligation; the structural clauses that "
+           "are contract-shaped (a permitted service is accepted by the slicer set-up) are proved under C05.",
+    "C08": "not claimed: caption_command / vbi_decode_caption operate on struct caption (168 kB, 18 vbi_page of bit-field cells); "
+           "CBMC did not finish symbolic execution of a single command, nor of put_char on one channel, within minutes "
+           "(DESIGN.md 8). A complete EIA-608 reference model over command histories is also beyond per-function contracts.",
     "C18": "multi-process scheduling/liveness property of daemon and clients (select loop, sockets): function "
            "contracts are per call and sequential; CBMC's contract instrumentation has no process/socket model",
     "C20": "data-race/deadlock/torn-read property over thread schedules: CBMC's contract instrumentation (dfcc) is "
